@@ -1,5 +1,5 @@
 /-
-C18, round 3: `encoded_shows_*` and the embedded-terminal round trip written out over BYTES.
+C18, round 3: `encoded_shows_*`, `render_frame_shows` and the embedded-terminal round trip written out over BYTES.
 
 The string `EncodeCells` / `StyledString.Encode` writes (`encodeCellsB` / `ssEncodeB`: the regenerated format strings
 printed with `%d`) goes through C02's parser model (`tokenize`: one `pstep` per rune, a `Print` swallows its cluster);
@@ -56,6 +56,16 @@ theorem roundtrip_ss_emu_bytes (cl : Str → Nat) (legacy : Bool) (cs : List (Ce
     `roundtrip_cells_bytes` are about the same loop with two different consumers). -/
 theorem cellsWith_parseSGR_eq (cl : Str → Nat) (s : Str) :
     cellsWith parseSGR {} (tokenize cl s) = parseStyledB cl s := cellsWith_parseSGR _ _
+
+/-- **render_frame_shows over bytes**: the SGR part of a rendered frame (pen deltas as the regenerated format strings print them,
+    graphemes, the final `sgrReset`), through the parser model into a `Spec.sgr` terminal: at every grapheme the terminal shows
+    what a terminal with these capabilities shows for the cell's style (`shownCaps`), and it is reset afterwards. -/
+theorem render_frame_shows_bytes (cl : Str → Nat) (rgb su legacy : Bool) (cs : List (Cell Str))
+    (hcs : ∀ c ∈ cs, c.st.ulStyle ≤ 5) (ht : TextOK cl (renderFrom rgb su legacy {} cs)) :
+    specRunItems TStyle.reset (tokenize cl (renderFromB rgb su legacy {} cs))
+      = (cs.map (fun c => (c.g, shownCaps rgb su c.st)), TStyle.reset) := by
+  rw [renderFromB_eq, tokenize_toks cl _ (good_renderFrom cl rgb su legacy cs hcs {} ht), specRunItems_items]
+  exact C18.render_frame_shows rgb su legacy cs hcs
 
 /-! ### Non-vacuity: a concrete string, evaluated -/
 
